@@ -19,6 +19,9 @@ package main
 //            {p, ...}     a composite literal / struct value with these fields, in order
 //            p.Name       field Name of the value matched by p (a pointer is dereferenced)
 //            lookup(m, k) the value of the map lookup m[k]
+//            @name        the current content of the local variable `name`
+// The guarded item may also be the pseudo call set_<Field>(p): every store of a value of shape p to a struct
+// field called <Field> (stores of other values are not subject to the clause).
 //
 // Symbolic values. The analysis runs on go/ssa in NaiveForm, where every named local is a memory cell. A load
 // of a local cell is resolved to the value stored into it when the cell does not escape (only loaded, stored and
@@ -49,13 +52,16 @@ import (
 )
 
 type GuardClause struct {
-	Tag    string
-	Src    string
-	Callee *gpat
-	Guard  *gpat
-	Want   bool
-	File   string
-	Line   int
+	// Selective (`guarded_where`): only the call sites whose arguments match the callee pattern are subject to the
+	// clause (at least one must exist); plain `guarded` demands the shape of every call site of that name
+	Selective bool
+	Tag       string
+	Src       string
+	Callee    *gpat
+	Guard     *gpat
+	Want      bool
+	File      string
+	Line      int
 }
 
 // gpat: pattern node
@@ -72,6 +78,8 @@ func (p *gpat) String() string {
 		return "_"
 	case "var":
 		return "$" + p.name
+	case "local":
+		return "@" + p.name
 	case "str":
 		return strconv.Quote(p.name)
 	case "int":
@@ -163,6 +171,9 @@ func (p *gpatParser) parse() (*gpat, error) {
 	case c == '$':
 		p.pos++
 		n = &gpat{kind: "var", name: p.ident()}
+	case c == '@':
+		p.pos++
+		n = &gpat{kind: "local", name: p.ident()}
 	case c == '"':
 		st := p.pos
 		p.pos++
@@ -290,8 +301,10 @@ type gsym struct {
 	args []*gsym
 	val  constant.Value
 	ref  interface{}       // identity for param / unknown / call instruction
-	defs []ssa.Instruction // definition points (stores, calls, heap loads) this value depends on
+	defs []ssa.Instruction // mutation / evaluation points this value depends on (stores into local cells, allocations, calls)
 	heap []string          // heap locations read ("T.f")
+	// cellName: when the value was read out of a local variable, the variable's name (pattern @name)
+	cellName string
 }
 
 func (s *gsym) String() string {
@@ -306,6 +319,8 @@ func (s *gsym) String() string {
 		return s.val.String()
 	case "param", "global":
 		return s.name
+	case "cell":
+		return "var " + s.name
 	case "unknown":
 		return "?" + s.name
 	case "field", "heap":
@@ -333,7 +348,7 @@ func gsymEqual(a, b *gsym) bool {
 	switch a.kind {
 	case "unknown":
 		return a.ref != nil && a.ref == b.ref
-	case "param", "global":
+	case "param", "global", "cell":
 		return a.ref == b.ref
 	case "call":
 		if a.ref != b.ref { // two different call instructions are different values
@@ -497,6 +512,23 @@ func typeShort(t types.Type) string {
 	return t.String()
 }
 
+// cellSym: an opaque value for "the current content of local cell a"; two loads are equal when no store to the
+// cell (and no re-allocation of it) can execute between them, which the segment rule of checkGuarded enforces
+// through the definition points recorded here.
+func (ga *guardAnalysis) cellSym(a *ssa.Alloc, ci *cellInfo) *gsym {
+	r := &gsym{kind: "cell", name: a.Comment, ref: a}
+	r.defs = append(r.defs, a)
+	for _, st := range ci.whole {
+		r.defs = append(r.defs, st)
+	}
+	for _, sts := range ci.fieldStores {
+		for _, st := range sts {
+			r.defs = append(r.defs, st)
+		}
+	}
+	return r
+}
+
 // loadCell: the value a load `at` sees in local cell a.
 func (ga *guardAnalysis) loadCell(a *ssa.Alloc, at ssa.Instruction) *gsym {
 	ci := ga.cell(a)
@@ -504,27 +536,22 @@ func (ga *guardAnalysis) loadCell(a *ssa.Alloc, at ssa.Instruction) *gsym {
 		return ga.unknown(a, "cell escapes or is written through an index")
 	}
 	if len(ci.fieldStores) == 0 {
-		if len(ci.whole) != 1 {
-			return ga.unknown(a, fmt.Sprintf("%d stores", len(ci.whole)))
+		if len(ci.whole) != 1 || !defDominates(ci.whole[0], at) {
+			return ga.cellSym(a, ci)
 		}
 		st := ci.whole[0]
-		if !defDominates(st, at) {
-			return ga.unknown(a, "store does not dominate the load")
-		}
 		v := ga.symOf(st.Val, st)
 		r := *v
 		r.defs = append(append([]ssa.Instruction(nil), v.defs...), st)
+		r.cellName = a.Comment
 		return &r
 	}
-	// composite literal: no whole store (or only the zeroing one is absent in go/ssa), each field stored at most once
-	if len(ci.whole) != 0 {
-		return ga.unknown(a, "whole and field stores")
-	}
+	// composite literal: no whole store, each field stored at most once
 	stt, ok := a.Type().(*types.Pointer).Elem().Underlying().(*types.Struct)
-	if !ok {
-		return ga.unknown(a, "field stores on non-struct")
+	if len(ci.whole) != 0 || !ok {
+		return ga.cellSym(a, ci)
 	}
-	r := &gsym{kind: "struct", name: typeShort(a.Type())}
+	r := &gsym{kind: "struct", name: typeShort(a.Type()), cellName: a.Comment}
 	for i := 0; i < stt.NumFields(); i++ {
 		sts := ci.fieldStores[i]
 		switch {
@@ -536,7 +563,7 @@ func (ga *guardAnalysis) loadCell(a *ssa.Alloc, at ssa.Instruction) *gsym {
 			mergeDefs(r, fv)
 			r.defs = append(r.defs, sts[0])
 		default:
-			r.args = append(r.args, ga.unknown(a, "field stored more than once"))
+			return ga.cellSym(a, ci)
 		}
 	}
 	return r
@@ -617,7 +644,6 @@ func (ga *guardAnalysis) symOf1(v ssa.Value, at ssa.Instruction) *gsym {
 				r := &gsym{kind: "heap", name: fieldName(ad.X.Type(), ad.Field), idx: ad.Field, args: []*gsym{b}}
 				mergeDefs(r, b)
 				r.heap = append(r.heap, typeShort(ad.X.Type())+"."+r.name)
-				r.defs = append(r.defs, x)
 				return r
 			case *ssa.IndexAddr:
 				b := ga.symOf(ad.X, x)
@@ -625,7 +651,6 @@ func (ga *guardAnalysis) symOf1(v ssa.Value, at ssa.Instruction) *gsym {
 				r := &gsym{kind: "elem", args: []*gsym{b, i}}
 				mergeDefs(r, b, i)
 				r.heap = append(r.heap, "elements of "+ad.X.Type().String())
-				r.defs = append(r.defs, x)
 				return r
 			case *ssa.Global:
 				return &gsym{kind: "global", name: ad.Name(), ref: ad}
@@ -665,7 +690,7 @@ func (ga *guardAnalysis) symOf1(v ssa.Value, at ssa.Instruction) *gsym {
 		k := ga.symOf(x.Index, x)
 		r := &gsym{kind: "lookup", args: []*gsym{m, k}}
 		mergeDefs(r, m, k)
-		r.defs = append(r.defs, x)
+		r.heap = append(r.heap, "entries of "+x.X.Type().String())
 		return r
 	case *ssa.BinOp:
 		a, b := ga.symOf(x.X, x), ga.symOf(x.Y, x)
@@ -778,6 +803,8 @@ func (ga *guardAnalysis) match(p *gpat, s *gsym, b gbind) bool {
 		return true
 	case "str", "int":
 		return constMatches(s, p)
+	case "local":
+		return (s.kind == "cell" && s.name == p.name) || (s.cellName == p.name && s.kind != "unknown")
 	case "call":
 		t := s
 		if t.kind == "extract" {
@@ -864,6 +891,75 @@ func edgeDominatesInstr(fn *ssa.Function, x *ssa.BasicBlock, k int, d ssa.Instru
 	return d.Block() != x && edgeDominates(fn, x, k, d.Block())
 }
 
+// segment: the instructions that can execute between the guarded edge x -> x.Succs[k] and the instruction u on a
+// path that does not pass through x again.
+type segment struct {
+	blocks map[*ssa.BasicBlock]bool // blocks entirely inside
+	u      ssa.Instruction
+	uWhole bool // u's block lies on a cycle avoiding x: all of it is inside
+	uIn    bool // u's block is reachable from the edge at all
+}
+
+func newSegment(fn *ssa.Function, x *ssa.BasicBlock, k int, u ssa.Instruction) *segment {
+	sg := &segment{blocks: map[*ssa.BasicBlock]bool{}, u: u}
+	start := x.Succs[k]
+	fwd := map[*ssa.BasicBlock]bool{}
+	if start != x {
+		fwd[start] = true
+		work := []*ssa.BasicBlock{start}
+		for len(work) > 0 {
+			b := work[len(work)-1]
+			work = work[:len(work)-1]
+			for _, sc := range b.Succs {
+				if sc != x && !fwd[sc] {
+					fwd[sc] = true
+					work = append(work, sc)
+				}
+			}
+		}
+	}
+	ub := u.Block()
+	bwd := map[*ssa.BasicBlock]bool{ub: true}
+	work := []*ssa.BasicBlock{ub}
+	for len(work) > 0 {
+		b := work[len(work)-1]
+		work = work[:len(work)-1]
+		for _, pr := range b.Preds {
+			if pr != x && !bwd[pr] {
+				bwd[pr] = true
+				work = append(work, pr)
+			}
+		}
+	}
+	for b := range fwd {
+		if bwd[b] && b != ub {
+			sg.blocks[b] = true
+		}
+	}
+	sg.uIn = fwd[ub]
+	// is u's block on a cycle that avoids x? (then instructions after u can run before a later arrival at u)
+	for _, sc := range ub.Succs {
+		if sc != x && (sc == ub || (fwd[sc] && bwd[sc])) {
+			sg.uWhole = true
+		}
+	}
+	return sg
+}
+
+func (sg *segment) contains(d ssa.Instruction) bool {
+	b := d.Block()
+	if b == nil {
+		return false
+	}
+	if b == sg.u.Block() {
+		if !sg.uIn {
+			return false
+		}
+		return sg.uWhole || instrBefore(d, sg.u)
+	}
+	return sg.blocks[b]
+}
+
 type guardSite struct {
 	ifi    *ssa.If
 	cond   *gsym
@@ -922,12 +1018,43 @@ func (e *Engine) checkGuarded(s *State, fn *ssa.Function, c *FuncContract) {
 				case *ssa.Go:
 					cc = x.Common()
 				}
-				if cc == nil || calleeShortName(cc) != g.Callee.name {
+				var args []*gsym
+				selecting := false
+				if cc != nil && calleeShortName(cc) == g.Callee.name {
+					args = ga.callArgs(cc, in)
+				} else if st, ok := in.(*ssa.Store); ok && strings.HasPrefix(g.Callee.name, "set_") {
+					// pseudo call set_<Field>(value): a store to a struct field of that name; only the stores whose value
+					// matches the argument pattern are selected (the others are not subject to the clause)
+					fa, ok := st.Addr.(*ssa.FieldAddr)
+					if !ok || "set_"+fieldName(fa.X.Type(), fa.Field) != g.Callee.name {
+						continue
+					}
+					args = []*gsym{ga.symOf(st.Val, st)}
+					selecting = true
+					if len(g.Callee.args) != 1 || !ga.match(g.Callee.args[0], args[0], gbind{}) {
+						continue
+					}
+				} else {
 					continue
+				}
+				if g.Selective && !selecting {
+					if len(args) != len(g.Callee.args) {
+						continue
+					}
+					okSel := true
+					selBind := gbind{}
+					for i := range args {
+						if !ga.match(g.Callee.args[i], args[i], selBind) {
+							okSel = false
+							break
+						}
+					}
+					if !okSel {
+						continue
+					}
 				}
 				sites++
 				pos := posString(e.fset, in.Pos())
-				args := ga.callArgs(cc, in)
 				if len(args) != len(g.Callee.args) {
 					bad = append(bad, fmt.Sprintf("%s: call has %d arguments, pattern %d", pos, len(args), len(g.Callee.args)))
 					continue
@@ -985,27 +1112,21 @@ func (e *Engine) checkGuarded(s *State, fn *ssa.Function, c *FuncContract) {
 						why = fmt.Sprintf("guard at %s does not dominate the call with outcome %v", posString(e.fset, gs.ifi.Cond.Pos()), g.Want)
 						continue
 					}
-					// same dynamic instances: definition points of everything bound or matched
+					// same dynamic instances: no definition point of a value shared by guard and call (metavariable
+					// bindings, the guard's own operands) may execute on the path segment from the guarded edge to the call
 					okDefs := true
-					var all []*gsym
+					var shared []*gsym
 					for _, v := range gb {
-						all = append(all, v)
+						shared = append(shared, v)
 					}
-					all = append(all, condArgs)
-					all = append(all, args...)
-					for _, v := range all {
+					shared = append(shared, condArgs)
+					seg := newSegment(fn, x, k, in)
+					for _, v := range shared {
 						for _, d := range v.defs {
-							if d == in {
-								continue
+							if d != in && seg.contains(d) {
+								okDefs = false
+								why = fmt.Sprintf("value %s used by guard and call may be redefined at %s between them", v, posString(e.fset, d.Pos()))
 							}
-							if d.Block() == x || d.Block().Dominates(x) {
-								continue
-							}
-							if edgeDominatesInstr(fn, x, k, d) && defDominates(d, in) {
-								continue
-							}
-							okDefs = false
-							why = fmt.Sprintf("value defined at %s is neither before the guard nor between guard and call", posString(e.fset, d.Pos()))
 						}
 						for _, h := range v.heap {
 							heapUsed[h] = true
@@ -1049,6 +1170,130 @@ func (e *Engine) checkGuarded(s *State, fn *ssa.Function, c *FuncContract) {
 			o.Result = &SolverResult{Status: "sat", Solver: "static-guard-analysis", Output: strings.Join(bad, "; ")}
 		} else {
 			o.Result = &SolverResult{Status: "unsat", Solver: "static-guard-analysis"}
+		}
+	}
+}
+
+// ---------------------------------------------------------------------------
+// only_callers [tag] TARGET: caller, caller, ...
+//
+// TARGET is the short key of a first-party function (cmd/broker.handler.handleCreateTopics,
+// pkg/broker.GroupCoordinator.JoinGroup) or of an interface method (pkg/metadata.Store.CreateTopic). The clause
+// holds when, in ALL first-party functions loaded for the check (closures included), every static call of the
+// function / every interface-method call of that name on that interface occurs inside one of the listed callers
+// (short keys, closures as parent$n), and the function is nowhere taken as a value (method value, callback).
+// Together with `guarded` clauses on the listed callers this closes the world: there is no other way to reach
+// TARGET from the analysed packages. Not covered: calls through a different interface type that the same
+// object also implements, reflection.
+
+type CallersClause struct {
+	Tag     string
+	Target  string
+	Callers map[string]bool
+	Src     string
+}
+
+func parseCallersClause(rest string) (*CallersClause, error) {
+	c := &CallersClause{Src: rest, Callers: map[string]bool{}}
+	rest = strings.TrimSpace(rest)
+	if strings.HasPrefix(rest, "[") {
+		k := strings.Index(rest, "]")
+		if k < 0 {
+			return nil, fmt.Errorf("bad tag")
+		}
+		c.Tag = rest[1:k]
+		rest = strings.TrimSpace(rest[k+1:])
+	}
+	k := strings.Index(rest, ":")
+	if k < 0 {
+		return nil, fmt.Errorf("only_callers [tag] TARGET: caller, ...")
+	}
+	c.Target = strings.TrimSpace(rest[:k])
+	for _, n := range strings.Split(rest[k+1:], ",") {
+		if n = strings.TrimSpace(n); n != "" {
+			c.Callers[n] = true
+		}
+	}
+	if c.Target == "" || len(c.Callers) == 0 {
+		return nil, fmt.Errorf("only_callers [tag] TARGET: caller, ...")
+	}
+	return c, nil
+}
+
+func (e *Engine) checkOnlyCallers(s *State, fn *ssa.Function, c *FuncContract) {
+	for _, cl := range c.Callers {
+		var bad []string
+		sites := 0
+		var keys []string
+		for k := range e.funcsByKey {
+			keys = append(keys, k)
+		}
+		sort.Strings(keys)
+		for _, k := range keys {
+			f := e.funcsByKey[k]
+			if f.Blocks == nil || !isFirstParty(f) {
+				continue
+			}
+			caller := shortKey(funcKey(f))
+			for _, b := range f.Blocks {
+				for _, in := range b.Instrs {
+					var cc *ssa.CallCommon
+					switch x := in.(type) {
+					case *ssa.Call:
+						cc = x.Common()
+					case *ssa.Defer:
+						cc = x.Common()
+					case *ssa.Go:
+						cc = x.Common()
+					}
+					hit := false
+					if cc != nil {
+						if cc.IsInvoke() {
+							hit = shortKey(ifaceMethodKey(cc)) == cl.Target
+						} else if callee := cc.StaticCallee(); callee != nil {
+							hit = shortKey(funcKey(callee)) == cl.Target
+						}
+					}
+					if hit {
+						sites++
+						if !cl.Callers[caller] {
+							bad = append(bad, fmt.Sprintf("called from %s at %s", caller, posString(e.fset, in.Pos())))
+						}
+					}
+					// the target taken as a value (not in call position)
+					for _, op := range in.Operands(nil) {
+						if op == nil || *op == nil {
+							continue
+						}
+						if cc != nil && *op == cc.Value {
+							continue
+						}
+						if tf, ok := (*op).(*ssa.Function); ok {
+							tk := shortKey(funcKey(tf))
+							if tk == cl.Target || (tf.Synthetic != "" && strings.HasPrefix(tk, cl.Target+"$")) {
+								bad = append(bad, fmt.Sprintf("taken as a value in %s at %s", caller, posString(e.fset, in.Pos())))
+							}
+						}
+					}
+				}
+			}
+		}
+		if sites == 0 {
+			bad = append(bad, "no call of "+cl.Target+" found (renamed or removed?)")
+		}
+		name := fmt.Sprintf("%s#callers:%s", e.rootKey, cl.Tag)
+		desc := fmt.Sprintf("%d call site(s) of %s in the loaded first-party code, all inside the listed callers", sites, cl.Target)
+		goal := TTrue
+		if len(bad) > 0 {
+			goal = TFalse
+			desc += ": " + strings.Join(bad, "; ")
+		}
+		s.addObligation("callers", name, cl.Tag, fn.Pos(), goal, desc)
+		o := e.obligations[len(e.obligations)-1]
+		if len(bad) > 0 {
+			o.Result = &SolverResult{Status: "sat", Solver: "static-call-graph", Output: strings.Join(bad, "; ")}
+		} else {
+			o.Result = &SolverResult{Status: "unsat", Solver: "static-call-graph"}
 		}
 	}
 }
